@@ -1,13 +1,13 @@
-\* thorough: three kernels in every order and placement, symbol tables of up to 5 entries in every order
+\* thorough: three kernels in every order and placement, symbol tables of up to 4 entries in every order
 SPECIFICATION Spec
 CONSTANTS
   Deviations = {}
-  Kernels <- KBig
+  Kernels <- KThree
   Layouts <- LQuick
   Pads = {4}
   NoiseFront = {TRUE}
   MaxKernels = 3
   MaxNoise = 0
-  MaxSwapLen = 5
+  MaxSwapLen = 4
 INVARIANTS TypeOK AlwaysWellFormed LoadIsTruth AutoDetect OthersRefused
 CHECK_DEADLOCK FALSE
